@@ -337,6 +337,8 @@ func (p *Parser) arithmMatchingErr(pos Pos, left, right token) {
 		p.matchingErr(pos, left, right)
 	case period:
 		p.checkLang(p.pos, LangZsh, `floating point arithmetic`)
+		// Even where floating point is allowed, a period here means the expression did not end.
+		p.matchingErr(pos, left, right)
 	default:
 		if p.quote&allArithmExpr != 0 {
 			p.curErr("not a valid arithmetic operator: %#q", p.tok)
